@@ -461,7 +461,7 @@ func formatLayers(tier string) []Layer {
 		for _, cf := range DCoefs(k) {
 			base = append(base, mkInt64(cf, 0, 34, 0))
 		}
-		for _, s := range []string{"5", "15", "25", "95", "995", "9995", "99995", "4999", "5001", "50", "149", "151", "999999", "1234567890123456789012345678901234567891", "99999999999999999999999999999999999999995", "1000000000000000000000000000000000000000005"} {
+		for _, s := range []string{"5", "15", "25", "95", "995", "9995", "99995", "4999", "5001", "50", "149", "151", "999999", "1234567890123456789012345678901234567891", "99999999999999999999999999999999999999995", "1000000000000000000000000000000000000000005", "50000000000000000001", "5000000000000000000000000000000000000003", "500000000000000000000000000000000000000000000000000000000007", "49999999999999999999999", "5000000000000000000", "50000000000000000000000000000000000000000000000000000000001"} {
 			base = append(base, mkCoef(false, mustInt(s), 0, uint32(len(s))+2, 0))
 		}
 		exps := []int64{-8, -7, -6, -5, -4, -3, -2, -1, 0, 1, 2, 3, 4, 5, 6, 7, 8, 21, 22, 40}
@@ -469,7 +469,7 @@ func formatLayers(tier string) []Layer {
 		layers = append(layers, Layer{
 			Name:   "V1-text",
 			Units:  len(base),
-			Bounds: fmt.Sprintf("x = c×10^e for c in D(%d) ∪ 16 tie/all-nines/long literals, decimal-point positions %v, ±, plus ±0, ±Inf; x.mode in 6 modes; formats e,E,f,g,G,p,b; precisions %v; Append == Text", k, exps, precs),
+			Bounds: fmt.Sprintf("x = c×10^e for c in D(%d) ∪ 23 tie/all-nines/long (multi-word, leading 5) literals, decimal-point positions %v, ±, plus ±0, ±Inf; x.mode in 6 modes; formats e,E,f,g,G,p,b; precisions %v; Append == Text", k, exps, precs),
 			Run: func(c *Ctx, u int) {
 				for _, e := range exps {
 					for _, neg := range []bool{false, true} {
